@@ -99,11 +99,20 @@ func vfGetEnv(prop string) *vfEnv {
 // are the base unit; quick runs are sized for about a minute per property on 16 cores).
 const vfQuickFactor = 4
 
+// vfThoroughFactor deepens the thorough tier of the checks whose thorough run used to finish in about a minute (measured
+// on 16 cores: every thorough tier now runs for roughly 3 to 8 minutes).
+var vfThoroughFactor = map[string]int{ //nolint:gochecknoglobals
+	"C08": 8, "C09": 6, "C10": 4, "C11": 3, "C13": 5, "C15": 4, "C16": 6, "C17": 3, "C18": 3, "C19": 20, "C05": 4, "C04": 3, "C20": 3, "C03": 2,
+}
+
 // n scales a per-tier case count and splits it over shards.
 func (e *vfEnv) n(quick, thorough int) int {
 	total := quick * vfQuickFactor
 	if e.tier == "thorough" {
 		total = thorough
+		if f := vfThoroughFactor[e.prop]; f > 1 {
+			total *= f
+		}
 	}
 	total = int(float64(total) * e.scale)
 	per := total / e.nshards
